@@ -227,7 +227,16 @@ pub fn gen_watch(rng: &mut Rng, o: &WatchOpts) -> Scenario {
         }
     }
     if rng.chance(o.watch_fail_pct) {
-        inv.plan.faults.push(Fault { site: "notify.watch".into(), occurrence: rng.range(1, 6) as u32, kind: "enospc".into() });
+        // which registration the kernel refuses: any of the first six, or (more often) one made
+        // for a target that is launched lazily, after the requested roots (whose own
+        // registrations come first, one per declared path)
+        let root_regs: usize = req
+            .iter()
+            .filter_map(|t| sc.target(t.0, &t.1))
+            .map(|t| t.input.iter().map(|r| if let Res::Paths { paths, .. } = r { paths.len() } else { 0 }).sum::<usize>())
+            .sum();
+        let occurrence = if rng.chance(60) { root_regs + rng.range(1, 4) } else { rng.range(1, 6) };
+        inv.plan.faults.push(Fault { site: "notify.watch".into(), occurrence: occurrence as u32, kind: "enospc".into() });
     }
     inv.plan.events.push(gen::signal_at_idle());
     inv.plan.knobs.step_budget = 400_000;
